@@ -829,7 +829,8 @@ func (e *Engine) evalCall(st *State, env *cenv, x *CExpr) (Val, error) {
 			return Val{K: KInt, T: intLit(int64(len(v.F))), Ty: types.Typ[types.Int]}, nil
 		case KAddr:
 			if v.Ty != nil {
-				if _, ok := v.Ty.Underlying().(*types.Map); ok {
+				if mt, ok := v.Ty.Underlying().(*types.Map); ok {
+					e.mapWitness(st, v.T, mt)
 					return Val{K: KInt, T: "(select " + st.heap("ML") + " " + v.T + ")", Ty: types.Typ[types.Int]}, nil
 				}
 			}
@@ -917,6 +918,18 @@ func (e *Engine) evalCall(st *State, env *cenv, x *CExpr) (Val, error) {
 			t = v.Base
 		}
 		return Val{K: KBool, T: "(< (root " + t + ") 0)"}, nil
+	case "inrange": // inrange(m): an iteration of the range loop over map m has begun (a Next returned a key)
+		v, err := e.evalC(st, env, args[0])
+		if err != nil {
+			return Val{}, err
+		}
+		res := "false"
+		for _, it := range st.iters {
+			if it != nil && !it.isStr && it.m.T == v.T && it.started != "" {
+				res = it.started
+			}
+		}
+		return Val{K: KBool, T: res}, nil
 	case "sameobj":
 		a, err := e.evalC(st, env, args[0])
 		if err != nil {
